@@ -233,7 +233,7 @@ func writeEvidence(verifDir string, prop Property, c *Ctx, tier string, seed int
 		pkgs = append(pkgs, pk.PkgPath)
 	}
 	cov := map[string]any{
-		"explanation":        prop.Explanation + " NOT DECIDED: " + prop.NotDecided,
+		"explanation":        prop.Explanation + laterRules(prop) + " NOT DECIDED: " + prop.NotDecided,
 		"rules":              c.Rules,
 		"obligations":        obl,
 		"discharged":         dis,
@@ -285,4 +285,24 @@ func firstLine(s string) string {
 		return s[:i]
 	}
 	return s
+}
+
+// laterRules: one clause for every rule of the property that the hand-written explanation does not
+// name (rules added in later rounds), so that the evidence text always covers the whole rule set.
+func laterRules(prop Property) string {
+	var extra []string
+	for _, r := range prop.Rules {
+		short := r.ID
+		if i := strings.LastIndex(short, "-"); i >= 0 {
+			short = short[i+1:]
+		}
+		if strings.Contains(prop.Explanation, short+" ") || strings.Contains(prop.Explanation, short+":") || strings.Contains(prop.Explanation, short+"(") || strings.Contains(prop.Explanation, short+",") || strings.Contains(prop.Explanation, short+"/") || strings.Contains(prop.Explanation, short+")") {
+			continue
+		}
+		extra = append(extra, short+": "+r.Desc)
+	}
+	if len(extra) == 0 {
+		return ""
+	}
+	return " Further rules (DESIGN.md §8.2): " + strings.Join(extra, "; ") + "."
 }
